@@ -8,6 +8,7 @@ from ..treegen import gen_tree, reference_walk, expected_outputs, Tree, cmake_te
 
 class Prop(BaseProp):
     ID = "C13"
+    ANCHORS = ['cminx:document', 'cminx:document_single_file', 'cminx.rstwriter:RSTWriter.write_to_file']
     LEVEL = "exploration"
     RULE = ("random directory trees (depth<=4, empty directories, directories with only non-CMake files incl. a file "
             "literally named 'cmake', mixed-case extensions beside a lower-case one, dotted/dashed names) x recursive "
